@@ -419,10 +419,21 @@ def run_callseq(ctx: Ctx, cases):
         except Exception as e:
             fail(ctx, "callseq-raises", cw, repr(e)[:300]); continue
         ctx.nontriv(("callseq", json.dumps(mc, sort_keys=True), json.dumps(c["calls"])))
-        ctx.count("callseq:" + ">".join(("dev" if k["deviation"] else "lvl") + "-" + k["kind"] for k in c["calls"]))
+        pat = ">".join((("dev-" if k.get("deviation") else "lvl-") if k["kind"] in ("filter", "nll", "simulate") else "") + k["kind"]
+                       for k in c["calls"])
+        ctx.count("callseq:" + pat)
+        if any(k["kind"] in ("assign_stds", "rescale_stds") for k in c["calls"]): ctx.count("callseq:with_std_change")
+        if any(k["kind"] == "copy" for k in c["calls"]): ctx.count("callseq:with_copy")
+        mc_now = ks.json_copy(mc)
         for k, call in enumerate(c["calls"]):
-            sub = ks.callseq_subcase(c, call)
             before = len(ctx.failures)
+            if call["kind"] in ("assign_stds", "rescale_stds", "copy"):
+                try:
+                    m = ks.apply_mutation(m, mc_now, call)
+                except Exception as e:
+                    fail(ctx, "callseq-raises", cw, f"call {k} {call}: {e!r}"[:300]); break
+                continue
+            sub = ks.callseq_subcase(c, call, ks.json_copy(mc_now))
             try:
                 if call["kind"] == "simulate":
                     start, span = ks.e2e_span(c["data"]["nper"])
@@ -447,7 +458,7 @@ def run_callseq(ctx: Ctx, cases):
             for f in ctx.failures[before:]:
                 if f["case"].get("stream") == "e2e":
                     f["case"] = cw; f["site"] = f["site"].replace("e2e-", "callseq-")
-                    f["detail"] = f"call {k} {call} after {[(x['kind'], x['deviation']) for x in c['calls'][:k]]}: " + f["detail"]
+                    f["detail"] = f"call {k} {call} after {[(x['kind'], x.get('deviation')) for x in c['calls'][:k]]}: " + f["detail"]
 
 
 def run_config(ctx: Ctx, cases):
@@ -526,7 +537,9 @@ def run(ctx: Ctx):
                 "observables) with simulated data, masks incl. forecast tails, time-varying stds from data, deviation and rescale_variance "
                 "flags; filter spans that are not consecutive runs (ir.Span with a step, hand-picked tuples) with observations in the in-between "
                 "periods; sequences of 3-5 calls on one model object (filter / neg_log_likelihood / simulate, deviation and level, "
-                "rescaling, full / sub / non-consecutive spans), each filter call against the oracle of its own options; "
+                "rescaling, full / sub / non-consecutive spans; in between, stds of transition / measurement shocks re-assigned or rescaled "
+                "without a new solve(), the object replaced by its copy), each filter call against the oracle of the options and "
+                "parameters in force at that call; "
                 "the same with one random-walk (unit-root) variable under fixed_unknown (GLS oracle); config: every case re-run "
                 "through neg_log_likelihood and with single output steps. "
                 "distinct_nontrivial = distinct (sizes, mask, flags) cases with T>1 and at least one observation (direct) / distinct "
